@@ -59,6 +59,21 @@ BUILT = {
             'Conformance is judged against the harness\'s transcription of the grammar; uncertain constructs are accepted, so '
             'some non-conformances can slip through but none are invented. URIs without C0 controls.',
             'DESIGN.md 3/C04'),
+    'C05': ('independent Haystack-JSON writer with hypothesis-drawn spelling plans x input forms; differential oracle: hszinc.parse vs the denoted model',
+            'A model grid is rendered by a JSON writer that shares no code with hszinc under a spelling plan (number literal '
+            'forms incl. exponents, raw JSON numbers/bools, INF/NaN, both Remove spellings, time/date-time variants, s: prefix or '
+            'bare strings incl. JSON look-alikes, nested containers, rows absent/null, omitted or null cells, key order) and '
+            'handed over as compact/indented/non-ASCII text, utf-8/16/32 bytes, dict or list of dicts; hszinc.parse must return '
+            'exactly the denoted grids, leave the caller\'s object deep-unchanged and share no mutable object with it.',
+            'Well-formedness per DESIGN.md Appendix B; tags keep relative order.',
+            'DESIGN.md 3/C05'),
+    'C06': ('hypothesis-generated model grids + catalogue; hszinc JSON output judged by strict json.loads, a shape/prefix check and an independent reader',
+            'hszinc.dump(..., MODE_JSON) output for grids over the C01 domain must be strict JSON of the documented shape, every '
+            'value must carry the type prefix of its model kind with a payload in that kind\'s lexical form (independent '
+            'reader), Remove spelled per version, and the independent reader must recover the model (six-decimal tolerance on '
+            'float payloads).',
+            'Lexical forms per DESIGN.md Appendix B.',
+            'DESIGN.md 3/C06'),
     'C14': ('exhaustive small-scope enumeration of operation histories + hypothesis histories, lock-step with a Python list model',
             'Every history of up to 4 (quick) / 5 (thorough) operations over a 27-op alphabet (append, insert, extend, +=, item '
             'assignment, del by index and slice, pop, remove, reverse, clear, continue-on-slice, refused non-dict rows and '
